@@ -611,6 +611,9 @@ func streamSlice(seed uint64, idx int) caseT {
 		arr := make([]interface{}, n)
 		for i := range arr {
 			arr[i] = float64(i)
+			if idx%33 == 0 && i%3 == 1 {
+				arr[i] = nil // a slice is a projection: it drops nulls BEFORE the next stage counts positions
+			}
 		}
 		e1, e2 := sliceExpr(a, b, c), sliceExpr(c, a, "_")
 		if idx%22 == 0 {
